@@ -10,7 +10,7 @@ flock 9
 LOG=$B/build.log
 : > "$LOG"
 SIMFLAGS="-fsanitize=thread -mllvm -tsan-instrument-memory-accesses=0 -mllvm -tsan-instrument-func-entry-exit=0 -mllvm -tsan-instrument-memintrinsics=0 -mllvm -tsan-handle-cxx-exceptions=0"
-fail() { echo "BUILD-FAILED: $1 (see $LOG)"; tail -40 "$LOG"; exit 2; }
+fail() { echo "BUILD-FAILED: $1 (see $LOG)"; grep -E "error|Error" -A4 "$LOG" | grep -v "^/usr/bin/clang" | cut -c1-300 | head -60; exit 2; }
 
 # 1. simulator
 if [ ! -f "$B/libpikasim.so" ] || [ "$V/sim/sim.cpp" -nt "$B/libpikasim.so" ] || [ "$V/sim/sim.h" -nt "$B/libpikasim.so" ] || [ "$V/sim/mpi_stub.cpp" -nt "$B/libpikasim.so" ]; then
@@ -26,7 +26,7 @@ if [ ! -f "$B/pika-sim/build.ninja" ]; then
   cmake -G Ninja -S /repo -B "$B/pika-sim" -DCMAKE_CXX_COMPILER=clang++-14 -DCMAKE_BUILD_TYPE=Release \
     -DPIKA_WITH_MALLOC=system -DPIKA_WITH_TESTS=OFF -DPIKA_WITH_EXAMPLES=OFF -DPIKA_WITH_UNITY_BUILD=ON \
     -DPIKA_WITH_MPI=ON -Dfmt_DIR=/usr/lib/x86_64-linux-gnu/cmake/fmt \
-    -DCMAKE_CXX_FLAGS="$SIMFLAGS -DPIKA_VERIF_SIM -Wno-unused-command-line-argument" \
+    -DCMAKE_CXX_FLAGS="$SIMFLAGS -DPIKA_VERIF_SIM -Wno-unused-command-line-argument -g" \
     -DCMAKE_SHARED_LINKER_FLAGS="-fno-sanitize=thread -L$B -lpikasim" \
     -DCMAKE_EXE_LINKER_FLAGS="-fno-sanitize=thread -L$B -lpikasim" >>"$LOG" 2>&1 || fail "cmake configure"
 fi
